@@ -215,9 +215,11 @@ class Body:
         return self._defs
 
     def single_def(self, l):
-        ds = [x for x in self.defs().get(l, []) if not (x[1] != "t" and x[2]["d"]["p"])]
-        whole = [x for x in self.defs().get(l, []) if (x[1] == "t" and not x[2]["dst"]["p"]) or (x[1] != "t" and not x[2]["d"]["p"])]
-        if len(whole) == 1 and len(self.defs().get(l, [])) == 1:
+        alld = self.defs().get(l, [])
+        whole = [x for x in alld if (x[1] == "t" and not x[2]["dst"]["p"]) or (x[1] != "t" and not x[2]["d"]["p"])]
+        # a store *through* the local (`(*_l) = ..`, `(*_l).f = ..`) writes the pointee, it does not redefine the local
+        through = [x for x in alld if ((x[2]["dst"]["p"] if x[1] == "t" else x[2]["d"]["p"]) or [""])[0] == "*"]
+        if len(whole) == 1 and len(alld) - len(through) == 1:
             return whole[0]
         return None
 
